@@ -424,10 +424,13 @@ class Interp:
             arg = self.ev(call.args[0]) if call.args else Const(None)
             self.emit(self.hooks.event(text, call, self))
             raise _Exit(arg)
+        emitted = False
         for exc in self.hooks.raises(text, call, self):
             atom = f"{self.prefix}raise[{exc}]@{self._short(text)}"
             if self.v(atom):
                 self.trace.append(call.lineno)
+                # the call was attempted: its event is part of the trace
+                self.emit(self.hooks.event(text, call, self))
                 raise _Raise(exc, text)
         self.emit(self.hooks.event(text, call, self))
         val = self.hooks.value_of_call(text, call, self)
